@@ -150,6 +150,11 @@ class ConcStream(Stream):
             # update || delete || decision
             {'checker': 'CExact', 'rxtable': [], 'init': [a], 'inquiries': [INQ],
              'threads': [[['update', pol('a', 'allow', subject='Max')]], [['delete', 'a']], [['decide', 0]]], 'bound': 1},
+            # cached guard, two mutations and two questions: every mutation that returned must have invalidated
+            {'checker': 'CExact', 'rxtable': [], 'init': [a], 'inquiries': [INQ], 'cached': True, 'cap': 16,
+             'threads': [[['add', b]], [['add', d]], [['decide', 0], ['decide', 0]]], 'bound': 1},
+            {'checker': 'CExact', 'rxtable': [], 'init': [a], 'inquiries': [INQ], 'cached': True, 'cap': 16,
+             'threads': [[['add', b]], [['decide', 0], ['add', d], ['decide', 0]]], 'bound': 1},
             # a store larger than the default paging batch (50): a decision must see one snapshot of all of it; the
             # decisive (vetoing) policy is the 51st, a policy of the first page is deleted meanwhile
             {'checker': 'CExact', 'rxtable': [],
@@ -336,7 +341,11 @@ class ConcStream(Stream):
         return None
 
     def classify(self, c, io, mo):
-        if c.get('cached'):
+        # the known race (a decision that missed the cache before a mutation stores its old answer after the
+        # mutation's invalidate()) is part of the model: its outcomes are among the model's interleavings.  Only a
+        # failure whose every outcome the model also produces is that finding; anything the model cannot produce
+        # (e.g. a mutation that did not invalidate at all) is reported.
+        if c.get('cached') and mo is not None and self.same(io, mo):
             v = self.violations(c)
             if v and all('is not the decision for any policy set' in what for _, what, _ in v):
                 return 'lru-stale-insert'
@@ -371,7 +380,7 @@ def main(argv):
         tier = argv[argv.index('--tier') + 1]
     st._tier = tier if tier in ('quick', 'thorough') else 'quick'
     return run_check('C14', [st], argv, trusted_base=TRUSTED, assumptions=ASSUME,
-                     translated=('memory', 'guard'))
+                     translated=('memory', 'storage_abc', 'guard', 'checker', 'subject', 'observable', 'pin_inquiry'))
 
 
 if __name__ == '__main__':
